@@ -1066,7 +1066,10 @@ func (ex *Exec) constGlobal(g *ssa.Global) Val {
 	}
 	ex.assumed["exported error variables of dependencies (e.g. "+name+") are constants: never reassigned, non-nil, pairwise distinct"] = true
 	tag, pl := Const("glob@"+name+".tag", SInt), Const("glob@"+name+".pl", SPtr)
-	ex.tagFacts = append(ex.tagFacts, Gt(tag, IntT(0)), Not(UF("boxedtag", SBool, tag)))
+	ex.tagFacts = append(ex.tagFacts, Not(UF("boxedtag", SBool, tag)))
+	// non-nilness does not depend on the classification of dynamic types: it goes to every query
+	// that mentions the variable
+	ex.globFacts = append(ex.globFacts, globFact{tag.Name, Gt(tag, IntT(0))})
 	for _, o := range ex.constGlobals {
 		ex.tagFacts = append(ex.tagFacts, Not(Eq(pl, o.(*Agg).F[1].(*Term))))
 	}
